@@ -14,6 +14,7 @@ from lib import impl
 from lib.vals import cjval
 from gen import schemas as G
 from gen import normgen as NG
+from gen import rewrites as RW
 
 REF = NG.REF
 HDR = ("Require Import OPC.gen.GenTables OPC.Uni OPC.Names OPC.Values OPC.Enums OPC.Norm.\nOpen Scope N_scope.\n"
@@ -215,13 +216,250 @@ def generate_from(src: Source, cfg=None, spy=None):
         shutil.rmtree(root, ignore_errors=True)
 
 
+# ------------------------------------------------------------------ B3: which parser runs
+def loader_cases():
+    """(source description, Coq source term builder) — JSON text that both parsers accept, so the spy sees which one ran"""
+    import mimetypes
+    from pathlib import Path
+    cases = []
+    for suffix in [".json", ".yaml", ".yml", ".JSON", ".txt", "", ".json.bak", ".jsonl"]:
+        g = mimetypes.guess_type(Path("/tmp/x/doc" + suffix).absolute().as_uri(), strict=True)[0]
+        cases.append((("file", suffix, None, None), f"(SFile [] {copt(g, cstr)})"))
+    for url, ct in [("http://spec.invalid/openapi.json", "application/json"), ("http://spec.invalid/openapi.json", "application/json; charset=utf-8"),
+                    ("http://spec.invalid/openapi.json", "application/json ;charset=utf-8"), ("http://spec.invalid/openapi.json", "Application/JSON"),
+                    ("http://spec.invalid/openapi.yaml", "application/yaml"), ("http://spec.invalid/openapi", "text/yaml"), ("http://spec.invalid/openapi.json", "text/plain"),
+                    ("http://spec.invalid/openapi.json", None), ("http://spec.invalid/openapi.yaml", None), ("http://spec.invalid/openapi", None),
+                    ("http://spec.invalid/openapi.yaml", "application/json;"), ("http://spec.invalid/openapi.json", ";application/json"),
+                    ("http://spec.invalid/openapi.json", "application/json;application/yaml"), ("http://spec.invalid/a.yaml", "application/vnd.oai.openapi+json")]:
+        g = mimetypes.guess_type(url, strict=True)[0]
+        cases.append((("url", None, url, ct), f"(SUrl (Some {{| r_content := []; r_ctype := {copt(ct, cstr)} |}}) {copt(g, cstr)})"))
+    return cases
+
+
+def loader_work(desc):
+    kind, suffix, url, ct = desc
+    doc = impl.base_doc()
+    spy = {}
+    src = Source("file", json.dumps(doc), suffix=suffix) if kind == "file" else Source("url", json.dumps(doc), url=url, ctype=ct)
+    files, diag, exc = generate_from(src, spy=spy)
+    return {"desc": desc, "parser": spy.get("parser"), "nfiles": len(files), "exc": exc, "diag": diag}
+
+
+# ------------------------------------------------------------------ stage C: pairs
+TEXT_FORMATS = ("json", "json-nonascii", "json-indent", "yaml", "yaml-block")
+
+
+def make_text(doc, fmt):
+    if fmt == "json":
+        return json.dumps(doc)
+    if fmt == "json-nonascii":
+        return json.dumps(doc, ensure_ascii=False)
+    if fmt == "json-indent":
+        return json.dumps(doc, indent=2, ensure_ascii=False)
+    if fmt == "yaml":
+        return ydump(doc)
+    if fmt == "yaml-block":
+        return ydump(doc, flow=False)
+    raise ValueError(fmt)
+
+
+def make_source(doc, spec):
+    """spec: {"via": "file"|"url", "fmt": one of TEXT_FORMATS, "suffix": str, "url": str, "ctype": str|None}"""
+    text = make_text(doc, spec["fmt"])
+    if spec["via"] == "file":
+        return Source("file", text, suffix=spec.get("suffix", ".json"))
+    return Source("url", text, url=spec.get("url", "http://spec.invalid/openapi.json"), ctype=spec.get("ctype"))
+
+
+JSON_FILE = {"via": "file", "fmt": "json", "suffix": ".json"}
+
+
+def first_diff(fa, fb):
+    for k in sorted(set(fa) | set(fb)):
+        if fa.get(k) != fb.get(k):
+            if k not in fa or k not in fb:
+                return {"file": k, "only_in": "first" if k in fa else "second"}
+            la, lb = fa[k].decode("utf-8", "replace").split("\n"), fb[k].decode("utf-8", "replace").split("\n")
+            for i, (x, y) in enumerate(zip(la, lb)):
+                if x != y:
+                    return {"file": k, "line": i + 1, "first": x[:200], "second": y[:200]}
+            return {"file": k, "line": min(len(la), len(lb)) + 1, "first": "<length %d>" % len(la), "second": "<length %d>" % len(lb)}
+    return None
+
+
+def c_work(args):
+    idx, doc_a, spec_a, doc_b, spec_b, cfg = args
+    out = {"idx": idx, "error": None}
+    try:
+        fa, da, xa = generate_from(make_source(doc_a, spec_a), cfg=cfg)
+        fb, db, xb = generate_from(make_source(doc_b, spec_b), cfg=cfg)
+        ha, hb = [(l, h) for l, h, _ in da], [(l, h) for l, h, _ in db]
+        out.update({"same": fa == fb and ha == hb and xa == xb, "nfiles": (len(fa), len(fb)), "exc": (xa, xb), "diag": (ha[:6], hb[:6]),
+                    "diag_detail": ([str(d)[:300] for _, _, d in da[:3]], [str(d)[:300] for _, _, d in db[:3]])})
+        if not out["same"]:
+            out["first_diff"] = first_diff(fa, fb) or {"file": None, "note": "diagnostics / exception differ only"}
+    except BaseException as e:  # noqa
+        import traceback
+        out["error"] = repr(e) + traceback.format_exc()[-1200:]
+    return out
+
+
+YAML_STRINGS = ["on", "yes", "no", "off", "y", "n", "null", "~", "true", "1", "1e3", "2001-12-14", "0x1F", "0o7", "1_000", "=", "<<", "a: b", "# c", " lead", "é中"]
+
+
+def yaml_sensitive(doc, rng):
+    """add strings that a different YAML loader type would coerce (booleans of YAML 1.1, dates, octal ...) as enum values,
+    descriptions and defaults"""
+    d = copy.deepcopy(doc)
+    comps = d.setdefault("components", {}).setdefault("schemas", {})
+    vals = rng.sample(YAML_STRINGS, 8)
+    comps["YamlStrings"] = {"type": "string", "enum": vals, "description": rng.choice(YAML_STRINGS), "default": vals[0]}
+    comps["YamlHolder"] = {"type": "object", "properties": {"yes": {"type": "string", "default": rng.choice(YAML_STRINGS)}, "when": {"type": "string", "default": "2001-12-14"},
+                                                             "e": {"$ref": REF + "YamlStrings"}}, "description": "2002-12-14"}
+    return d
+
+
+FINDING_TEXT = {
+    "enum_null_typelist_double_expansion": "enum containing null under a type list / nullable typed schema is expanded once more per listed type (three enum classes) and differs from the explicit union",
+    "root_bare_ref_unsupported": "components/schemas/<X>: a single-reference wrapper is accepted, the bare $ref it stands for is rejected (Reference schemas are not supported)",
+    "wrapper_under_single_member": "a wrapper that is the only member of an anyOf/oneOf/allOf is not seen as a reference by the parent: the parent becomes a one-member union instead of the referenced class",
+    "wrapper_as_allof_member": "a wrapper listed as a member of a composed model's allOf contributes nothing (only properties/required of inline members are read): the referenced model's properties are dropped",
+    "json_via_yaml_surrogate_escape": "JSON text served under a content type other than application/json is parsed by the YAML loader, which rejects the surrogate-pair escapes json.dumps emits for non-BMP characters",
+}
+
+
+def witness_pairs():
+    """fixed pairs, one per listed finding: (finding id, label, doc_a, spec_a, doc_b, spec_b)"""
+    R = {"$ref": REF + "R"}
+    base = lambda s, extra=None: G.doc_with({"R": G.obj({"a": {"type": "integer"}}), "H": G.obj({"p": s}, required=["p"]), **(extra or {})})
+    en = {"type": "string", "nullable": True, "enum": ["a", "b", None]}
+    ex = {"oneOf": [{"type": "null"}, {"type": "string", "nullable": True, "enum": ["a", "b"]}]}
+    emoji = impl.base_doc(paths={"/x": {"get": {"responses": {"200": {"description": "ok \U0001F600"}}}}})
+    return [
+        ("enum_null_typelist_double_expansion", "witness", base(en), JSON_FILE, base(ex), JSON_FILE),
+        ("root_bare_ref_unsupported", "witness", base(R, {"W": {"allOf": [R]}}), JSON_FILE, base(R, {"W": R}), JSON_FILE),
+        ("wrapper_under_single_member", "witness", base({"anyOf": [R]}), JSON_FILE, base({"anyOf": [{"allOf": [R]}]}), JSON_FILE),
+        ("wrapper_as_allof_member", "witness", base({"allOf": [R, G.obj({"k": {"type": "string"}})]}), JSON_FILE,
+         base({"allOf": [{"allOf": [R]}, G.obj({"k": {"type": "string"}})]}), JSON_FILE),
+        ("json_via_yaml_surrogate_escape", "witness", emoji, JSON_FILE, emoji, {"via": "url", "fmt": "json", "url": "http://spec.invalid/raw/openapi.json", "ctype": "text/plain"}),
+    ]
+
+
+def plan_pairs(run, tier, rng):
+    """list of pair dicts: label, family, doc_a, spec_a, doc_b, spec_b, sites, expect (None | finding id)"""
+    pairs = []
+    atlas = G.atlas_docs()
+    n_site, n_rand = (10, 4) if tier == "quick" else (70, 30)
+    site_docs = [(f"site{i}", RW.site_doc(random.Random(rng.randrange(1 << 30)), version=rng.choice(["3.1.0", "3.0.3"]))) for i in range(n_site)]
+    rand_docs = [(f"rand{i}", G.random_doc(random.Random(rng.randrange(1 << 30)), n_models=rng.randint(3, 6), depth=rng.randint(1, 3))) for i in range(n_rand)]
+    if tier == "quick":
+        atlas = [d for d in atlas if not d[0].startswith("unions")] + [d for d in atlas if d[0].startswith("unions")][:2]
+    docs = atlas + site_docs + rand_docs
+
+    def add(label, family, a, sa, b, sb, sites=None, expect=None, cfg=None):
+        pairs.append({"label": label, "family": family, "doc_a": a, "spec_a": sa, "doc_b": b, "spec_b": sb, "sites": sites or [], "expect": expect, "cfg": cfg})
+
+    # (a) serialisation and source: every document once, variant drawn at random; the site documents get all of them in thorough
+    variants = [
+        ("a:yaml-file", {"via": "file", "fmt": "yaml", "suffix": ".yaml"}),
+        ("a:yaml-block-file", {"via": "file", "fmt": "yaml-block", "suffix": ".yml"}),
+        ("a:url-json", {"via": "url", "fmt": "json", "ctype": "application/json"}),
+        ("a:url-json-charset", {"via": "url", "fmt": "json-indent", "ctype": "application/json; charset=utf-8"}),
+        ("a:url-yaml", {"via": "url", "fmt": "yaml", "url": "http://spec.invalid/openapi.yaml", "ctype": "application/yaml"}),
+        ("a:url-noheader-json", {"via": "url", "fmt": "json", "url": "http://spec.invalid/v1/openapi.json", "ctype": None}),
+        ("a:json-text-through-yaml-loader", {"via": "url", "fmt": "json-nonascii", "ctype": "text/plain"}),
+        ("a:json-text-as-yaml-file", {"via": "file", "fmt": "json-indent", "suffix": ".yaml"}),
+    ]
+    for label, d in docs:
+        dy = yaml_sensitive(d, rng)
+        ks = range(len(variants)) if tier == "thorough" and label.startswith("site") else rng.sample(range(len(variants)), 2 if tier == "quick" else 3)
+        for k in ks:
+            add(label, variants[k][0], dy, JSON_FILE, dy, variants[k][1])
+    # (v) the version string alone
+    for label, d in docs[:: (3 if tier == "quick" else 1)]:
+        b = copy.deepcopy(d)
+        b["openapi"] = "3.0.3" if d.get("openapi", "3.1.0").startswith("3.1") else "3.1.0"
+        add(label, "v:version-string", d, JSON_FILE, b, JSON_FILE)
+    # (b)(c)(d)(e) schema rewrites inside the proved domain, at random subsets of positions
+    reps = 1 if tier == "quick" else 3
+    for label, d in docs:
+        fam_sets = [("b",), ("c",), ("d",), ("e",), ("b", "c", "d", "e")] if label.startswith("site") else [("b", "d"), ("d",)]
+        for fams in fam_sets:
+            for _ in range(reps):
+                b, sites = RW.apply_family(d, fams, rng, p=rng.choice([0.3, 0.6, 1.0]))
+                if sites:
+                    cfg = {"literal_enums": True} if rng.random() < 0.15 else None
+                    add(label, "+".join(fams), d, JSON_FILE, b, JSON_FILE, sites=sites, cfg=cfg)
+    # guard-false rewrites: expected to differ, each class is a listed finding
+    for cls, fams in [("enum_null_typelist_double_expansion", ("c",)), ("root_bare_ref_unsupported", ("d",)),
+                      ("wrapper_under_single_member", ("d",)), ("wrapper_as_allof_member", ("d",))]:
+        n = 0
+        for label, d in docs:
+            b, sites = RW.apply_family(d, fams, rng, p=1.0, want_guard=cls, max_sites=1)
+            if sites:
+                add(label, "guard-false:" + cls, d, JSON_FILE, b, JSON_FILE, sites=sites, expect=cls)
+                n += 1
+                if n >= (2 if tier == "quick" else 8):
+                    break
+    for fid, label, a, sa, b, sb in witness_pairs():
+        add(label, "witness:" + fid, a, sa, b, sb, expect=fid)
+    return pairs
+
+
+def guard_terms(pairs):
+    """Coq re-check of the python guard mirrors on every rewritten site of families c and d"""
+    terms, meta = [], []
+    for pi, p in enumerate(pairs):
+        for s in p["sites"]:
+            rw = s["rewrite"]
+            if rw.startswith("c:"):
+                sch = s["before"]
+                py = RW.g_enum_null(sch)
+            elif rw.startswith("cr:"):
+                sch = s["after"]
+                py = RW.g_enum_null(sch)
+            elif rw.startswith("dr:"):
+                sch = s["before"]
+                py = RW.g_wrapper(sch)
+            elif rw.startswith("d:"):
+                sch = s["after"]
+                py = RW.g_wrapper(sch)
+            else:
+                continue
+            t = sch.get("type")
+            ty = "TyAbsent" if t is None else (f"(TyOne {NG.JTY[t]})" if isinstance(t, str) else "(TyList [" + "; ".join(NG.JTY[x] for x in t) + "])")
+            nl = cbool(bool(sch.get("nullable")))
+            if rw[0] == "c":
+                terms.append(f"Bool.eqb (g_enum_null {ty} {nl}) {cbool(py)}")
+            else:
+                terms.append(f"Bool.eqb (g_wrapper {ty} {nl} {copt(sch.get('default'), cjval)}) {cbool(py)}")
+            meta.append((pi, s))
+    return terms, meta
+
+
+def static_anchor_check(run):
+    """the model lets the builder ignore `nullable`: true as long as schema.py is its only reader"""
+    import pathlib
+    readers = []
+    for f in pathlib.Path(REPO, "openapi_python_client").rglob("*"):
+        if f.suffix in (".py", ".jinja") and f.is_file():
+            txt = f.read_text(encoding="utf-8", errors="replace")
+            if re.search(r"\.nullable\b", txt) and not str(f).endswith("openapi_schema_pydantic/schema.py"):
+                readers.append(str(f.relative_to(REPO)))
+    if readers:
+        run.violation("anchor", {"note": "`.nullable` is read outside schema.py: Norm.build ignores the flag, the model no longer covers this code", "files": readers}, no_input=True)
+    run.note_case({"stage": "A'", "check": "nullable read only by the validator"}, nontrivial=False, kind="anchor")
+
+
 # ------------------------------------------------------------------ run
 def stage_b(run, tier, rng):
-    n_docs, n_sites = (14, 40) if tier == "quick" else (120, 50)
+    n_docs, n_sites = (14, 40) if tier == "quick" else (160, 50)
     jobs = [(rng.randrange(1 << 30), n_sites, (i % 4 == 3)) for i in range(n_docs)]
     t0 = time.time()
+    lcases = loader_cases()
     with cf.ProcessPoolExecutor(max_workers=14) as ex:
         results = list(ex.map(b_work, jobs))
+        lres = list(ex.map(loader_work, [c[0] for c in lcases]))
     hdr = HDR + env_header()
     terms, meta = [], []
     for r in results:
@@ -229,9 +467,8 @@ def stage_b(run, tier, rng):
             run.violation("harness-or-parser", {"seed": r["seed"], "error": r["error"]})
             continue
         for c in r["pre"]:
-            if "term" in c:
-                terms.append(c["term"]); meta.append(("pre", c))
-                run.note_case({"stage": "B1", "schema": c["schema"], "position": c["position"]}, nontrivial=bool(c["schema"].get("nullable")), kind="B1-validator-" + c["position"])
+            terms.append(c["term"]); meta.append(("pre", c))
+            run.note_case({"stage": "B1", "schema": c["schema"], "position": c["position"]}, nontrivial=bool(c["schema"].get("nullable")), kind="B1-validator-" + c["position"])
         for c in r["tree"]:
             terms.append(c["term"]); meta.append(("tree", c))
             run.note_case({"stage": "B2", "schema": c["schema"], "position": c["position"], "name": c["name"], "literal": c["literal"]},
@@ -239,6 +476,13 @@ def stage_b(run, tier, rng):
     for case, term in bounds_cases(rng, 40 if tier == "quick" else 200):
         terms.append(term); meta.append(("bound", case))
         run.note_case({"stage": "B1", **case}, nontrivial=True, kind="B1-bounds")
+    for (desc, src), lr in zip(lcases, lres):
+        run.note_case({"stage": "B3", "source": desc}, nontrivial=True, kind="B3-loader")
+        if lr["parser"] not in ("json", "yaml") or lr["exc"]:
+            run.violation("correspondence", {"what": "loader", "source": desc, "impl": lr, "note": "no parser ran / generation failed on a plain JSON document"})
+            continue
+        terms.append(f"parser_eqb (choose_parser (content_type_of {src})) {'PJson' if lr['parser'] == 'json' else 'PYaml'}")
+        meta.append(("loader", {"source": desc, "impl_parser": lr["parser"], "term": src}))
     print("phase B gen %.1fs (%d terms)" % (time.time() - t0, len(terms))); t0 = time.time()
     bad = run_cases(hdr, terms, shard=250)
     print("phase B coq %.1fs" % (time.time() - t0))
@@ -252,12 +496,81 @@ def stage_b(run, tier, rng):
         elif kind == "pre":
             mv = coq_eval(hdr, c["model"])
             run.violation("correspondence", {"what": "schema validators (handle_nullable)", "schema": c["schema"], "position": c["position"], "impl": c["obs"][:1200], "model": mv[-1200:]})
+        elif kind == "loader":
+            run.violation("correspondence", {"what": "loader dispatch (_get_document / _load_yaml_or_json)", **c,
+                                             "model": coq_eval(hdr, f"choose_parser (content_type_of {c['term']})")[-200:]})
         else:
             run.violation("correspondence", {"what": "handle_exclusive_min_max", **c, "term": terms[i]})
     return len(terms), len(bad)
 
 
+def stage_c(run, tier, rng, replay=None):
+    t0 = time.time()
+    if replay:
+        rp = json.load(open(replay))
+        pairs = [v["pair"] for v in rp["violations"] if "pair" in v]
+    else:
+        pairs = plan_pairs(run, tier, rng)
+    # the python guard mirrors agree with the Coq guards on every rewritten site
+    gt, gm = guard_terms(pairs)
+    for i in run_cases(HDR, gt, shard=400):
+        pi, s = gm[i]
+        run.violation("harness", {"note": "python mirror of a Coq guard disagrees with Norm.g_enum_null / g_wrapper", "site": s})
+    jobs = [(i, p["doc_a"], p["spec_a"], p["doc_b"], p["spec_b"], p["cfg"]) for i, p in enumerate(pairs)]
+    with cf.ProcessPoolExecutor(max_workers=14) as ex:
+        results = list(ex.map(c_work, jobs, chunksize=2))
+    print("phase C %d pairs %.1fs" % (len(pairs), time.time() - t0))
+    fam_hist = {}
+    for p, r in zip(pairs, results):
+        fam = p["family"]
+        fam_hist[fam.split(":")[0] if fam.startswith(("guard-false", "witness")) else fam] = fam_hist.get(fam, 0) + 1
+        slim = {"label": p["label"], "family": fam, "spec_b": p["spec_b"], "sites": [{k: s[k] for k in ("path", "position", "rewrite")} for s in p["sites"]][:12]}
+        run.note_case({"stage": "C", **slim}, nontrivial=bool(p["sites"]) or fam.startswith(("a:", "v:", "witness")), kind="C-" + (fam if not fam.startswith(("guard-false", "witness")) else fam.split(":")[0]))
+        if r["error"]:
+            run.violation("harness-or-generator", {"pair": p, "error": r["error"]})
+            continue
+        nonempty = r["nfiles"][0] > 0
+        if p["expect"] is None:
+            if not r["same"]:
+                # json text pushed through the YAML loader: the listed surrogate-escape finding owns exactly the documents whose JSON text has such an escape
+                if fam in ("a:json-text-through-yaml-loader", "a:json-text-as-yaml-file") and re.search(r"\\ud[89ab][0-9a-f]{2}\\ud[c-f][0-9a-f]{2}", make_text(p["doc_b"], p["spec_b"]["fmt"]), re.I):
+                    if run.known_finding("json_via_yaml_surrogate_escape", FINDING_TEXT["json_via_yaml_surrogate_escape"] + f" (document {p['label']})"):
+                        continue
+                run.violation("oracle", {"pair": p, "label": p["label"], "rewrite": fam, "positions": slim["sites"], "first_diff": r.get("first_diff"),
+                                         "diag": r["diag"], "diag_detail": r["diag_detail"], "exc": r["exc"],
+                                         "note": "equivalent documents (rewrites inside the proved domain) generate different trees"})
+            elif not nonempty:
+                run.violation("oracle", {"pair": p, "label": p["label"], "rewrite": fam, "diag": r["diag"], "diag_detail": r["diag_detail"], "exc": r["exc"],
+                                         "note": "both documents generated nothing: the comparison is vacuous"})
+        else:
+            if not r["same"]:
+                where = r.get("first_diff")
+                if not run.known_finding(p["expect"], FINDING_TEXT.get(p["expect"], p["expect"]) + f"; first difference {json.dumps(where)[:220]} (document {p['label']}, {fam})"):
+                    run.violation("oracle", {"pair": p, "label": p["label"], "rewrite": fam, "first_diff": where, "note": "difference outside the proved domain in a class that is not listed"})
+    run.extra["stage_c_pairs"] = len(pairs)
+    run.extra["stage_c_families"] = fam_hist
+    return len(pairs)
+
+
 def run(run, tier, replay=None):
     rng = run.rng
+    static_anchor_check(run)
+    if replay:
+        stage_c(run, tier, rng, replay=replay)
+        return
     nb, bad = stage_b(run, tier, rng)
-    run.corr = {"cases": nb, "mismatches": bad, "what": "B1 validators == Norm.pre/hx; B2 parsed property objects == Norm.norm"}
+    run.corr = {"cases": nb, "mismatches": bad,
+                "what": "B1 real pydantic validators at the position the schema sits (nested: once; under a non-Schema object: twice) == Norm.pre_at / hx; "
+                        "B2 property objects built by build_schemas at component-root and model-attribute positions (default config and literal_enums) == Norm.norm "
+                        "(kinds, derived member names, class names, member order, raw default); B3 parser chosen by _get_document for file/URL sources == Norm.choose_parser"}
+    stage_c(run, tier, rng)
+    run.rule = ("stage B: random schemas over the notations (single type / nullable:true / type lists / anyOf / oneOf / allOf / enum with null / single-reference wrappers with "
+                "and without extra keywords and defaults / hostile shapes) at component-root, attribute, parameter and media-type positions; a case = one (schema, position); "
+                "non-trivial = the parser built a property (B2) or the schema is nullable (B1). stage C: atlas + site-rich + random documents; a case = one document pair "
+                "(rewrite family applied at a random subset of its applicable positions, or a serialisation/source variant); non-trivial = at least one position rewritten or a "
+                "different serialisation/source; distinct by hash of (document label, family, rewritten positions).")
+    run.assumptions += ["json.loads and ruamel YAML(typ=safe) are oracles without law: their agreement on a document is sampled (stage C family a), not proved",
+                        "mimetypes.guess_type is an oracle: its result is an input of the loader model",
+                        "abstraction functions harness/gen/normgen.py (schema dict -> sch, validated oai.Schema -> sch, property object -> tree)",
+                        "httpx.get is replaced in-process by a function returning an httpx.Response (no network); the byte comparison ignores diagnostic detail text",
+                        "pydantic runs the after-validators of a Schema held by a non-Schema object twice (observed with the pinned pydantic; modelled by pre_at true)"]
